@@ -35,7 +35,8 @@ def expected_tree(model):
     for p, e in mv.items():
         out[p] = e
     if model.relocation_active():
-        name = getattr(model, 'rr_moved_name', ('RR_MOVED', 'rr_moved'))[1]
+        model._update_reloc()
+        name = model.reloc_name[1]
         out['/' + name] = ('dir', None, None, None, False)
     return out
 
@@ -53,6 +54,19 @@ def check_image(data, model, counters):
     counters['rr_entries_checked'] = counters.get('rr_entries_checked', 0) + len(rr.entries)
     counters['ce_areas_seen'] = counters.get('ce_areas_seen', 0) + sum(len(e.ce_areas) for e in rr.entries.values())
     counters['relocated_dirs'] = counters.get('relocated_dirs', 0) + len(rr.holder)
+    # documented placement: deep directories are relocated into one relocation directory in
+    # the root, and nothing in the ISO9660 hierarchy lies deeper than eight levels
+    parents = {p.rsplit('/', 1)[0] for p in rr.holder}
+    for p in sorted(rr.holder):
+        if p.count('/') != 2:
+            vio.append({'key': 'reloc:placement', 'detail': 'relocated directory recorded at %s, not directly in a relocation directory of the root' % p[:120]})
+    if len(parents) > 1:
+        vio.append({'key': 'reloc:placement', 'detail': 'relocated directories live in several directories: %s' % sorted(parents)[:4]})
+    if model.cfg.level < 4:
+        for p in iso.pvd.dirs:
+            if p != '/' and p.count('/') > 7:
+                vio.append({'key': 'reloc:depth', 'detail': 'directory at ISO9660 depth %d: %s' % (p.count('/') + 1, p[:120])})
+                break
     exp = expected_tree(model)
     got = {p: n for p, n in rr.logical.items() if p != '/'}
     for p in sorted(set(exp) - set(got)):
@@ -138,6 +152,7 @@ def deep_history(g, cfg, seed):
         h.apply({'op': 'set_relocated_name', 'name': 'MOVED' if cfg.level > 1 else 'MOVED', 'rr_name': 'moved.dir'})
         if h.sess.ops[-1][1].ok:
             h.sess.model.rr_moved_name = ('MOVED', 'moved.dir')
+            h.sess.model._update_reloc()
     p = ''
     depth = r.choice([8, 9, 10, 12])
     for d in range(1, depth + 1):
@@ -163,12 +178,49 @@ def deep_history(g, cfg, seed):
     return h
 
 
+def gen_reopen_ops(h, cs, g, deep):
+    """Edits generated against the model of the image after it was written and opened again."""
+    img, oc = h.sess.write()
+    if not oc.ok:
+        return None
+    s2, oc2 = h.sess.reopen(img.getvalue())
+    if not oc2.ok:
+        s2.close()
+        return None
+    g2 = Gen(cs + 5, 'churn')
+    g2.uniq = h.gen.uniq + 1000
+    g2.next_cid = h.gen.next_cid + 1000
+    out = []
+    if deep:
+        g2.max_depth = 11
+        m = s2.model
+        # more directories at and below the relocation depth, next to the ones parsed from the image
+        d7 = [d for d in m.dirs('iso') if m.depth(d) == 7]
+        for par in d7[:2]:
+            for _ in range(g.rng.choice([1, 2])):
+                op = {'op': 'add_directory', 'iso_path': join(par, g2.iso_dir_name(m.cfg.level)), 'rr_name': g2.rr_name(long_bias=0.3)}
+                if s2.step(op).ok:
+                    out.append(op)
+                    if g.rng.random() < 0.5:
+                        op2 = {'op': 'add_fp', 'cid': g2.new_cid(), 'length': 9, 'iso_path': join(op['iso_path'], g2.iso_file_name(m.cfg.level)), 'rr_name': g2.rr_name()}
+                        if s2.step(op2).ok:
+                            out.append(op2)
+    for _ in range(g.rng.choice([4, 10, 20])):
+        op = g2.gen_op(s2.model)
+        if s2.step(op).ok:
+            out.append(op)
+        else:
+            break
+    s2.close()
+    return out
+
+
 def run_case(i, seed, tier):
     counters = {}
     cs = seed * 1000003 + i
     g = Gen(cs, 'names')
     rr_cfgs = lambda c: c.rr is not None
-    kind = ['sweep', 'history', 'deep', 'history', 'deep', 'sweep', 'history-reopen'][i % 7]
+    kind = ['sweep', 'history', 'deep', 'history', 'deep-reopen', 'sweep', 'history-reopen'][i % 7]
     if i % 35 == 4:
         kind = 'ce-gap'
     reopen_ops = None
@@ -201,26 +253,14 @@ def run_case(i, seed, tier):
         h.extend(g.rng.choice([8, 20, 40]))
         ops = list(h.ops)
         if kind == 'history-reopen':
-            img, oc = h.sess.write()
-            if oc.ok:
-                s2, oc2 = h.sess.reopen(img.getvalue())
-                if oc2.ok:
-                    g2 = Gen(cs + 5, 'churn')
-                    g2.uniq = h.gen.uniq + 1000
-                    g2.next_cid = h.gen.next_cid + 1000
-                    reopen_ops = []
-                    for _ in range(g.rng.choice([4, 10, 20])):
-                        op = g2.gen_op(s2.model)
-                        if s2.step(op).ok:
-                            reopen_ops.append(op)
-                        else:
-                            break
-                    s2.close()
+            reopen_ops = gen_reopen_ops(h, cs, g, False)
         h.sess.close()
     else:
         cfg = g.cfg(index=i + seed * 29, require=lambda c: c.rr is not None and c.level < 4)
         h = deep_history(g, cfg, cs)
         ops = list(h.ops)
+        if kind == 'deep-reopen':
+            reopen_ops = gen_reopen_ops(h, cs, g, True)
         h.sess.close()
     vio, rr = run_ops(cfg, ops, cs, counters, reopen_ops)
     nt = False
